@@ -255,6 +255,15 @@ TRYINTO_SMALL = [
     Var("Other", "other", "unit", []),
 ]
 
+# variants whose fields are ALL ignored belong to the `()` group, next to unit and explicitly empty variants
+TRYINTO_ALL_IGNORED = [
+    Var("Unit", "unit", "unit", []),
+    Var("Marker", "marker", "tuple", ["V"], field_ignored=(0,)),
+    Var("Tagged", "tagged", "named", ["W", "V"], field_ignored=(0, 1)),
+    Var("Half", "half", "tuple", ["V", "W"], field_ignored=(1,)),
+    Var("Empty", "empty", "tuple", []),
+]
+
 
 def generic_shape():
     """lifetime- and type-generic enums instantiated with T = V.  (`TryInto` needs the payload types to cover the type
@@ -503,6 +512,7 @@ def shapes(tier):
            ignored_unwrap_shape(),
            try_into_shape("c11_try_into_shared_tuples", TRYINTO_VARIANTS),
            try_into_shape("c11_try_into_small", TRYINTO_SMALL, quick=False),
+           try_into_shape("c11_try_into_all_fields_ignored", TRYINTO_ALL_IGNORED),
            generic_shape()] + selection_shapes()
     # the whole grid costs ~20 s: quick and thorough run all of it
     return out
